@@ -1565,7 +1565,8 @@ _BRANCHES = [
     'trialsSeqE:raise-at-later-trial', 'restartLoop:converged-at-first-attempt', 'restartLoop:converged-after-restarts',
     'restartLoop:gives-up-maxrep', 'restartLoop:gives-up-maxrep-or-not-repeatable', 'clipOne:at-lower', 'clipOne:at-upper',
     'clipOne:inside', 'construct:REJ:type', 'construct:REJ:value', 'construct:accepted', 'getNcpu:local', 'getNcpu:config',
-    'getNcpu:default', 'getNcpu:raises', 'extendLabels:reseeded', 'extendLabels:continues-at-position',
+    'getNcpu:default', 'getNcpu:raises', 'extendFile:returns', 'extendFile:raises-index', 'extendFile:raises-runtime',
+    'extendFile:reseeds', 'extendFile:keeps-seed', 'gridOf:scalar', 'gridOf:r2', 'gridOf:r3', 'gridOf:array', 'extendLabels:reseeded', 'extendLabels:continues-at-position',
     'extendLabels:one-process', 'extendLabels:several-processes', 'extendMany:history', 'extendShared:history',
 ]
 # branches of the model that no valid input reaches, with the theorem that says so
@@ -1604,7 +1605,98 @@ def _branches_old(count, c, m):
             count('branch:parTrials:empty-worker-chunk')
 
 
+def _grid_py(g):
+    """JSON grid description -> the argument as the caller would write it"""
+    k, v = g['form'], g['v']
+    if k == 'scalar':
+        return {'float': float, 'int': int, 'np': np.float64}[g.get('num', 'float')](v)
+    if k in ('r2', 'r3'):
+        return tuple(v) if g.get('seq', 'tuple') == 'tuple' else list(v)
+    return np.array(v, dtype=np.float64)
+
+
+def _grid_tok(g):
+    k, v = g['form'], g['v']
+    if k == 'scalar':
+        return 's:' + f2b(v)
+    if k in ('r2', 'r3'):
+        return k + ':' + flist(v)
+    return 'a:' + flist(v)
+
+
+def _grid_len(g):
+    k, v = g['form'], g['v']
+    if k == 'scalar':
+        return 1
+    if k == 'array':
+        return len(v)
+    return len(np.arange(v[0], v[1] + 1, v[2] if k == 'r3' else 1))
+
+
+def _extfile_req(case):
+    c = case['cfg']
+    n, pre, file = case['n'], case['pre'], case['file']
+    npts = max(1, _grid_len(case['g1']) * _grid_len(case['g2']))
+    B = 2 * pre + 2 * n * npts * (1 + c['maxev'] + 6) + 2 * c['npar'] * c['maxrep'] + 8
+    cand = sorted(set(range(_gen()['seedStart'], _gen()['seedStart'] + len(file) + 2)) | {case['cur']})
+    tabs = ';'.join('%d=%s' % (sd, ','.join(str(int(x)) for x in _words(sd, B))) for sd in cand)
+    return 'extfile %d %d %d %d %d %s %s %s %d %s %d %d %s %s %s' % (
+        _gen()['seedStart'], n, case.get('ncpu', 1), case['cur'], 2 * pre, ilist(file), _grid_tok(case['g1']), _grid_tok(case['g2']),
+        c['maxev'], f2b(c['thr']), c['maxrep'], c['npar'], f2b(c['lo']), f2b(c['hi']), tabs)
+
+
+def _extfile_impl(case):
+    from skyllh.core.utils.analysis import extend_trial_data_file
+    c = case['cfg']
+    ana = _mk_ana(c)
+    rec0, _, _ = _run_trials(c, 0, 0, 1, 1, 0, None)
+    td = np.zeros(len(case['file']), dtype=rec0.dtype)
+    td['seed'] = case['file']
+    td0 = td.copy()
+    rss = _svc(case['cur'], case['pre'])
+    try:
+        with _Watchdog(120):
+            out = extend_trial_data_file(ana, rss, case['n'], td, mean_n_sig=_grid_py(case['g1']), mean_n_sig_null=_grid_py(case['g2']),
+                                         ncpu=case.get('ncpu', 1))
+    except MachineryError:
+        raise
+    except Exception as e:  # noqa
+        return 'RAISED:' + type(e).__name__, rss
+    if td.tobytes() != td0.tobytes() or out[:len(td)].tobytes() != td0.tobytes():
+        return 'CHANGED-OLD-ROWS', rss
+    return (_rows(out[len(td):]), ilist(out['seed'])), rss
+
+
+def _extfile_compare(case, impl, model, count=None):
+    res, rss = impl
+    parts = dict(x.split(':', 1) for x in model.split(' '))
+    if count:
+        count('branch:extendFile:' + ('raises-' + parts['ERR'] if 'ERR' in parts else 'returns'))
+        count('branch:extendFile:' + ('reseeds' if case['cur'] in case['file'] else 'keeps-seed'))
+        count('branch:gridOf:%s' % case['g1']['form'])
+        count('branch:gridOf:%s' % case['g2']['form'])
+    if 'ERR' in parts:
+        if not (isinstance(res, str) and res.startswith('RAISED:')):
+            return 'model: extend_trial_data_file raises (%s), the implementation returned' % parts['ERR']
+    else:
+        if isinstance(res, str):
+            return 'implementation: %s; the model returns %d new rows' % (res, parts['rows'].count('|') + 1)
+        if res[0] != parts['rows']:
+            a, b = res[0].split('|'), parts['rows'].split('|')
+            if len(a) != len(b):
+                return 'extension appended %d rows, model %d' % (len(a), len(b))
+            k = [i for i in range(len(a)) if a[i] != b[i]][0]
+            return 'appended row %d: implementation %s, model %s' % (k, a[k][:200], b[k][:200])
+        if res[1] != parts['file']:
+            return 'seed column of the new file %s, model %s' % (res[1][:200], parts['file'][:200])
+    sd, p = parts['rss'].split(':')
+    if case.get('ncpu', 1) == 1 and (rss.seed != int(sd) or not _same_state(rss.random.get_state(), _state_at(int(sd), int(p)))):
+        return 'caller\'s service after extend_trial_data_file: model says seed %s at word %s, the implementation is elsewhere' % (sd, p)
+    return None
+
+
 _NEW = {
+    'extfile': (_extfile_req, _extfile_impl, _extfile_compare),
     'trialsE': (_trialsE_req, _trialsE_impl, _trialsE_compare),
     'cobj': (_cobj_req, _cobj_impl, _cobj_compare),
     'ncpu': (_ncpu_req, _ncpu_impl, _ncpu_compare),
@@ -2013,6 +2105,31 @@ def run(ctx):  # noqa: C901
         ctx.count('cobj:class=%s' % cls)
         ctx.count('cobj:dtype=%s' % dt)
         ctx.count('cobj:layout=%s' % case['layout'])
+    def gen_grid(small):
+        if small:
+            # the null-hypothesis strength: the fixture's ZeroSigH0 ratio only accepts 0, in any form (incl. two points, no point)
+            return rng.choice([{'form': 'scalar', 'v': 0.0, 'num': rng.choice(['float', 'int', 'np'])},
+                               {'form': 'r2', 'v': [0.0, 0.0], 'seq': rng.choice(['tuple', 'list'])},
+                               {'form': 'r3', 'v': [0.0, 0.0, 1.0], 'seq': 'tuple'}, {'form': 'array', 'v': [0.0]},
+                               {'form': 'array', 'v': [0.0, 0.0]}, {'form': 'array', 'v': []}, {'form': 'r2', 'v': [0.0, -1.0]}])
+        f = rng.choice(['scalar', 'scalar', 'r2', 'r2', 'r3', 'array'])
+        if f == 'scalar':
+            return {'form': f, 'v': rng.choice([0.0, 1.0, 2.0] if small else [0.0, 1.0, 2.0, 2.5, 3.0]), 'num': rng.choice(['float', 'int', 'np'])}
+        if f == 'r2':
+            return {'form': f, 'v': rng.choice([[0.0, 1.0], [1.0, 1.0], [0.0, 0.0], [2.0, 0.0], [1.0, 2.0]]), 'seq': rng.choice(['tuple', 'list'])}
+        if f == 'r3':
+            return {'form': f, 'v': rng.choice([[0.0, 2.0, 2.0], [0.0, 1.0, 0.5], [1.0, 3.0, 1.0], [3.0, 1.0, 1.0]]), 'seq': rng.choice(['tuple', 'list'])}
+        return {'form': f, 'v': rng.choice([[0.0, 2.0], [1.0], [], [3.0, 0.0, 1.0]])}
+    for j in range(ctx.n(24, 300)):
+        file = sorted(set(rng.randrange(0, 5) for _ in range(rng.randrange(0, 5))))
+        g1 = gen_grid(False)
+        if g1['form'] == 'scalar' and g1.get('num') == 'int':
+            g1['v'] = float(int(g1['v']))
+        g2 = gen_grid(True)
+        if g2['form'] == 'scalar' and g2.get('num') == 'int':
+            g2['v'] = float(int(g2['v']))
+        cases.append({'kind': 'extfile', 'cfg': _gen_cfg(rng), 'file': file, 'cur': rng.choice(file) if file and j % 3 else rng.randrange(0, 7),
+                      'pre': rng.choice([0, 0, 3]), 'n': 0 if j % 11 == 5 else rng.choice([1, 2, 3]), 'g1': g1, 'g2': g2})
     for cv in (None, -1, 0, 1, 3):
         for lv in (None, -2, 0, 1, 2, 5):
             cases.append({'kind': 'ncpu', 'cfg': cv, 'loc': lv})
@@ -2158,7 +2275,15 @@ def _oracle_cases_for(c):
     if k == 'choice':
         return [('choice', _explicit({'ps': c['ps'], 'us': c['us'], 'items': c.get('items')}))]
     if k == 'seed':
-        return [('seed', {'used': c['used'], 'cur': c['cur'], 'rows': 1})]
+        return [('seed', {'used': c['used'], 'cur': c['cur'], 'rows': 1, 'glue': c.get('glue')})]
+    if k == 'trialsE':
+        return [('error_poststate', {x: v for x, v in c.items() if x not in ('kind', 'mini')})]
+    if k == 'cobj':
+        return [('choice_nan', {'p': c['p'], 'dtype': c.get('dtype', 'float64'), 'us': c['us'] or [0.0]})]
+    if k == 'labels':
+        return [('extend_labels', {x: v for x, v in c.items() if x != 'kind'})]
+    if k in ('ncpu', 'extfile'):
+        return []
     if k == 'hist':
         return [('seed_history', {'file': c['file'], 'curs': c['curs'], 'rows': c['rows']})]
     if k == 'histshared':
